@@ -1218,11 +1218,19 @@ class HttpHeaderFieldValueContentTypeCharset(FieldValueComponentString):
     def get_canonical_name(cls):
         return 'charset'
 
+    @classmethod
+    def _check_name(cls, name):
+        cls._check_name_insensitive(name)
+
 
 class HttpHeaderFieldValueContentTypeBoundary(FieldValueComponentString):
     @classmethod
     def get_canonical_name(cls):
         return 'boundary'
+
+    @classmethod
+    def _check_name(cls, name):
+        cls._check_name_insensitive(name)
 
 
 @attr.s
@@ -1316,11 +1324,19 @@ class HttpHeaderFieldValueSetCookieParamDomain(FieldValueComponentString):
     def get_canonical_name(cls):
         return 'Domain'
 
+    @classmethod
+    def _check_name(cls, name):
+        cls._check_name_insensitive(name)
+
 
 class HttpHeaderFieldValueSetCookieParamPath(FieldValueComponentString):
     @classmethod
     def get_canonical_name(cls):
         return 'Path'
+
+    @classmethod
+    def _check_name(cls, name):
+        cls._check_name_insensitive(name)
 
 
 class HttpHeaderFieldValueSetCookieParamSecure(FieldValueComponentOption):
@@ -1351,6 +1367,10 @@ class HttpHeaderFieldValueSetCookieParamSameSite(FieldValueComponentStringEnum):
     @classmethod
     def get_canonical_name(cls):
         return 'SameSite'
+
+    @classmethod
+    def _check_name(cls, name):
+        cls._check_name_insensitive(name)
 
     @classmethod
     def _get_value_type(cls):
@@ -1523,6 +1543,10 @@ class HttpHeaderFieldValueXXSSProtectionMode(FieldValueComponentStringEnum):
     @classmethod
     def get_canonical_name(cls):
         return 'mode'
+
+    @classmethod
+    def _check_name(cls, name):
+        cls._check_name_insensitive(name)
 
     @classmethod
     def _get_value_type(cls):
